@@ -56,9 +56,9 @@ M = [
     ("C17", "M6", "vm/hash_map.go", "\t\t} else {\n\t\t\tindex++\n\t\t}\n\n\t\t// when we reach the start index\n\t\t// all slots are checked:\n\t\t// a deleted slot seen on the way is still free\n\t\tif index == startIndex {\n\t\t\treturn deletedIndex, value.Undefined",
      "\t\t} else {\n\t\t\tindex++\n\t\t}\n\n\t\t// when we reach the start index\n\t\t// all slots are checked:\n\t\t// a deleted slot seen on the way is still free\n\t\tif index == startIndex {\n\t\t\treturn -1, value.Undefined",
      True, "D7 reverted (maps): Index answers -1 although a deleted slot is free"),
-    ("C17", "M7", "vm/hash_set.go", "\tnewSet := NewHashSetOfValue(5)\n\tfor _, shorterVal := range shorter.table {\n\t\tif shorterVal == DeletedHashSetValue || shorterVal.IsUndefined() {\n\t\t\tcontinue\n\t\t}\n\n\t\tcontains, err := HashSetOfValueContains(vm, longer, shorterVal)",
-     "\tnewSet := NewHashSetOfValue(5)\n\tfor _, shorterVal := range shorter.table {\n\t\tif shorterVal == DeletedHashSetValue || shorterVal.IsUndefined() {\n\t\t\tcontinue\n\t\t}\n\n\t\tcontains, err := HashSetOfValueContains(vm, shorter, shorterVal)",
-     True, "set intersection tests membership in the wrong operand"),
+    ("C17", "M7", "vm/hash_set.go", "\t} else if entry == DeletedHashSetValue {\n\t\t// this is a zombie slot, just overwrite it's content\n\t\tset.elements++\n\t\tnewValue = true",
+     "\t} else if entry == DeletedHashSetValue {\n\t\t// this is a zombie slot, just overwrite it's content\n\t\tnewValue = true", True,
+     "HashSet append into a deleted slot does not count the element"),
     ("C17", "H1", "vm/hash_map.go", "\t\tif index == capacity-1 {\n\t\t\tindex = 0\n\t\t} else {\n\t\t\tindex++\n\t\t}\n\n\t\t// when we reach the start index\n\t\t// all slots are checked:\n\t\t// a deleted slot seen on the way is still free\n\t\tif index == startIndex {\n\t\t\treturn deletedIndex, value.Undefined",
      "\t\tindex = (index + 1) % capacity\n\n\t\t// when we reach the start index\n\t\t// all slots are checked:\n\t\t// a deleted slot seen on the way is still free\n\t\tif index == startIndex {\n\t\t\treturn deletedIndex, value.Undefined",
      False, "harmless: wrap with a modulo"),
@@ -98,8 +98,8 @@ def main():
             continue
         open(full, "w").write(src.replace(old, new))
         try:
-            rc, out = sh("GOPROXY=off go build ./... 2>&1 | tail -5", REPO)
-            if "error" in out or rc != 0 and out.strip():
+            rc, out = sh("GOPROXY=off go build ./...", REPO)
+            if rc != 0:
                 rows.append((prop, mid, desc, "DOES-NOT-BUILD " + out[-200:].replace("\n", " "), ""))
                 continue
             rc, out = sh(["./check", prop], ROOT)
